@@ -87,8 +87,10 @@ def _modify_kwargs(ctx, f):
 
 def check_siblings(prog, ctx):
     rid = "R10.1"
-    conj = prog.func("symmray.fermionic_core:FermionicArray.conj")
-    dag = prog.func("symmray.fermionic_core:FermionicArray.dagger")
+    from engine.inline import inlined_func
+
+    conj = inlined_func(prog, prog.func("symmray.fermionic_core:FermionicArray.conj"))
+    dag = inlined_func(prog, prog.func("symmray.fermionic_core:FermionicArray.dagger"))
     kc, mc = _modify_kwargs(ctx, conj)
     kd, md = _modify_kwargs(ctx, dag)
     # (a) charge
@@ -122,14 +124,34 @@ def check_siblings(prog, ctx):
     ctx.check(sc == sd, rid, dag, nd, "conj vs dagger leg sets", "(d) conj and dagger select the same set of legs")
     # the selected legs are used for a parity flip in both
     flips = [c for c in walk_own(dag.node) if isinstance(c, ast.Call) and src(c.func) == "new.phase_flip"]
-    ctx.check(len(flips) == 1 and src(flips[0].args[0]) == "*axs_conj", rid, dag, dag.node, "flip",
+    def uses_selection(call, sel, f):
+        if any(x is sel for a in call.args for x in ast.walk(a)):
+            return True
+        for a in call.args:
+            v = a.value if isinstance(a, ast.Starred) else a
+            if isinstance(v, ast.Name):
+                for d in ast.walk(f.node):
+                    if isinstance(d, ast.Assign) and src(d.targets[0]) == v.id and any(x is sel for x in ast.walk(d.value)):
+                        return True
+        return False
+
+    ctx.check(len(flips) == 1 and len(flips[0].args) == 1 and uses_selection(flips[0], nd, dag), rid, dag, dag.node, "flip",
               "(d) dagger applies phase_flip on exactly the selected legs")
     gate = [n for n in walk_own(dag.node) if isinstance(n, ast.If) and src(n.test) == "phase_dual"]
     ctx.check(len(gate) == 1 and flips and any(flips[0] is c for s in gate[0].body for c in ast.walk(s)), rid, dag, dag.node,
               "gate", "(d) dagger: the leg flip is gated by phase_dual only")
-    par = [n for n in ast.walk(conj.node) if isinstance(n, ast.GeneratorExp) and src(n.elt) == "parities[ax]"
-           and src(n.generators[0].iter) == "axs_conj"]
-    ctx.check(len(par) == 1, rid, conj, conj.node, "parity sum", "(d) conj sums the parities of exactly the selected legs")
+    par = [n for n in ast.walk(conj.node) if isinstance(n, ast.GeneratorExp) and isinstance(n.elt, ast.Subscript)
+           and src(n.elt.slice) == src(n.generators[0].target)]
+    okp = False
+    for n in par:
+        it = n.generators[0].iter
+        if any(x is nc for x in ast.walk(it)):
+            okp = True
+        if isinstance(it, ast.Name):
+            for d in ast.walk(conj.node):
+                if isinstance(d, ast.Assign) and src(d.targets[0]) == it.id and any(x is nc for x in ast.walk(d.value)):
+                    okp = True
+    ctx.check(okp, rid, conj, conj.node, "parity sum", "(d) conj sums the parities of exactly the selected legs")
     # (e) exactly one kind of reversal
     conj_virtual = [c for c in ast.walk(conj.node) if isinstance(c, ast.Call) and src(c.func) == "calc_phase_permutation"
                     and len(c.args) == 2 and src(c.args[1]) == "None"]
